@@ -35,6 +35,32 @@ mod context;
 mod store;
 mod dependency;
 
+/// Verification hooks: types of the read-only store dump and re-export of the object-safe output checker proxy.
+#[cfg(feature = "gohla_pie_verif")]
+pub mod verif {
+  pub use crate::trait_object::task::OutputCheckerObj;
+
+  /// One node of the dependency store, in ascending topological rank.
+  #[derive(Clone, Debug)]
+  pub struct VerifNode {
+    pub is_task: bool,
+    pub key: String,
+    pub output: Option<String>,
+    pub rank: usize,
+    pub outgoing: Vec<VerifEdge>,
+    pub incoming: Vec<String>,
+  }
+  /// One outgoing edge (dependency) of a node, in iteration order.
+  #[derive(Clone, Debug)]
+  pub struct VerifEdge {
+    pub target_is_task: bool,
+    pub target: String,
+    pub kind: &'static str,
+    pub checker: String,
+    pub stamp: String,
+  }
+}
+
 /// Trait alias for types that are used as values: types that can be cloned, debug formatted, and contain no
 /// non-`'static` references. We use this as an alias for trait bounds and super-traits.
 pub trait Value: Clone + Debug + 'static {}
@@ -259,6 +285,12 @@ impl<A: Tracker> Pie<A> {
   pub fn resource_state_mut<R: Resource>(&mut self) -> &mut impl ResourceState<R> {
     self.0.resource_state_mut()
   }
+}
+
+#[cfg(feature = "gohla_pie_verif")]
+impl<A> Pie<A> {
+  /// Verification hook: read-only dump of the dependency store.
+  pub fn verif_dump_store(&self) -> Vec<verif::VerifNode> { self.0.verif_dump_store() }
 }
 
 /// A session in which builds are executed.
